@@ -8,6 +8,8 @@
   byte string / every chain length / every pipe id; nothing is bounded.
 -/
 import NngModel.Proofs.BacktracePair
+import NngModel.Generated.Base
+import NngModel.Generated.C13
 namespace Nng.C13
 open Nng Nng.Bt Nng.BtSpec
 open Nng.Generated (maxMaxTtl headerCap btSavedCap btPipeIdMax btReqIdMin btReqIdMax)
